@@ -36,16 +36,16 @@ type Config struct {
 	MapOrder     string // "", "reverse", "swap:<k>"
 	Bounds       map[string]int
 	StrParams    map[string]string
-	BitLenExtra  []int // additional exact anchors for the big.Int BitLen model
+	BitLenExtra  []int           // additional exact anchors for the big.Int BitLen model
 	CLIEnv       bool            // C15: environment stubs of the command-line tool are active
 	RecordInputs bool            // keep the names of the input symbols each path read
 	AutoUF       bool            // callees without body or model become uninterpreted pure functions (sweep)
 	UF0          map[string]bool // functions replaced by an arbitrary constant result per path (their argument does not change during the run)
 	UF           map[string]bool // functions replaced by uninterpreted pure functions of their arguments (stub by contract)
-	AltSolver    string // second-opinion solver for queries the primary leaves unknown ("" = none)
+	AltSolver    string          // second-opinion solver for queries the primary leaves unknown ("" = none)
 	AltTimeoutMs int
-	NoSpareCap   bool  // do not explore "input slice has spare capacity" at append (append always reallocates)
-	LazyFeas     bool  // do not ask the solver at forks: both sides are explored, feasibility is decided at assertions and at the end of a path
+	NoSpareCap   bool // do not explore "input slice has spare capacity" at append (append always reallocates)
+	LazyFeas     bool // do not ask the solver at forks: both sides are explored, feasibility is decided at assertions and at the end of a path
 	Deadline     time.Time
 	Merge        map[string]bool
 	SampleMax    int // translator validation: number of returning paths whose model is replayed natively
